@@ -359,6 +359,11 @@ def update_level(ctx):
     return first
 
 
+def update_level_currents(t):
+    i_ = 2.0 + 5.0 * t
+    return {"source": i_, "drain": -i_}
+
+
 def _update_level_gamma(ctx, rng, gamma_, terminal_psi=None):
     import zoo
     import runs
@@ -367,7 +372,9 @@ def _update_level_gamma(ctx, rng, gamma_, terminal_psi=None):
     dev = zoo.make_device("bar_hole", rng, max_edge_length=1.0, gamma=gamma_)
     dt = 2e-3
     opts = runs.options(adaptive=False, dt_init=dt, terminal_psi=terminal_psi)
-    ref = runs.Reference(dev, opts, 2, applied_vector_potential=0.4, terminal_currents={"source": 2.0, "drain": -2.0})  # two ordinary steps first
+    # (a bias that changes from call to call: whatever the update does about the new boundary condition, the psi step is
+    # taken with the mu it was handed)
+    ref = runs.Reference(dev, opts, 2, applied_vector_potential=0.4, terminal_currents=update_level_currents)  # two ordinary steps first
     solver = ref.solver
     n, E = len(dev.mesh.sites), solver.num_edges
     for rep in range(4 if ctx.quick else 30):
@@ -375,7 +382,7 @@ def _update_level_gamma(ctx, rng, gamma_, terminal_psi=None):
         psi = amp * (rng.normal(size=n) + 1j * rng.normal(size=n)) / np.sqrt(2)
         mu = rng.normal(size=n) * rng.choice([0.0, 1.0])
         try:
-            res = solver.update({"step": 5 + rep, "time": 0.1, "dt": dt}, ref.rs, dt, psi=psi.copy(), mu=mu.copy(), supercurrent=np.zeros(E), normal_current=np.zeros(E),
+            res = solver.update({"step": 5 + rep, "time": 0.1 + 0.07 * rep, "dt": dt}, ref.rs, dt, psi=psi.copy(), mu=mu.copy(), supercurrent=np.zeros(E), normal_current=np.zeros(E),
                                 induced_vector_potential=np.zeros((E, 2)))
         except RuntimeError as e:
             # "never refused when a solution exists at every site": the discriminant of the state that was handed in
